@@ -54,7 +54,7 @@ var concSharedOps = []string{"s.validate", "s.getters", "s.enc-cbor", "s.enc-jso
 
 func (concWorld) Gen(prop, tier string, idx int, r *Rng) *Trace {
 	var cfg ConcCfg
-	fams := []string{"p1", "p2", "p1", "p2", "xp2", "xp1"}
+	fams := []string{"p1", "p2", "p1", "p2", "xp2", "xp1", "xw"}
 	nClaims := r.Range(2, 5)
 	for i := 0; i < nClaims; i++ {
 		pf := fams[i%2]
